@@ -166,9 +166,11 @@ Definition hsize (name : bytes) : N := size (AStr name) + size (ANum 0).
 (* variantCallPacket.Size() *)
 Definition vsize (name : bytes) (o : option amf) : N := hsize name + size_opt o.
 
-(* UserControl.Size() *)
-Definition uc_size (et : N) : N :=
-  2 + (if et =? etFmsEvent0 then 1 else 4) + (if et =? etSetBufferLength then 4 else 0).
+(* Size() of the four control packets: the function bodies GENERATED from rtmp.go by the
+   translator (Gen_rtmp.v, tools/repo2coq/gen_funcs.go); Proofs/RtmpPacket.v characterises them
+   (uc_size_spec), so a change of the source re-opens the theorems *)
+Definition gen_size (r : res Z) : N := match r with Ok z => Z.to_N z | _ => 0 end.
+Definition uc_size (et : N) : N := gen_size (rtmp_UserControl_Size (Z.of_N et)).
 
 Definition psize (p : pkt) : N :=
   match p with
@@ -178,9 +180,9 @@ Definition psize (p : pkt) : N :=
   | PCreateStreamRes n _ o sid => vsize n o + size (ANum sid)
   | PPublish n _ o sn st => vsize n o + size (AStr sn) + size (AStr st)
   | PPlay n _ o sn => vsize n o + size (AStr sn)
-  | PSetChunkSize _ => 4
-  | PWinAck _ => 4
-  | PSetPeerBw _ _ => 4 + 1
+  | PSetChunkSize _ => gen_size (rtmp_SetChunkSize_Size tt)
+  | PWinAck _ => gen_size (rtmp_WindowAcknowledgementSize_Size tt)
+  | PSetPeerBw _ _ => gen_size (rtmp_SetPeerBandwidth_Size tt)
   | PUserControl et _ _ => uc_size et
   end.
 
@@ -439,14 +441,15 @@ Definition wf_oprops (o : option props) : bool := match o with Some ps => wf_pro
 Definition is_some {A} (o : option A) : bool := match o with Some _ => true | None => false end.
 
 (* optional trailing fields are present only after the preceding ones; the command object of
-   createStream / its response / publish / play is present (the constructor installs Null);
+   a createStream response / publish / play is present (the constructor installs Null; for
+   createStream itself it is the last field and may be absent);
    connect carries its fixed name and transaction id 1; a connect response is a _result *)
 Definition wf_pkt (p : pkt) : bool :=
   match p with
   | PConnect n t o a => bytes_eqb n cConnect && (t =? f_one) && wf_propsb o && wf_oprops a
   | PConnectRes n t o a => bytes_eqb n cResult && wf_f64 t && wf_propsb o && wf_oprops a
   | PCall n t o a => wf_strb n && wf_f64 t && wf_opt o && wf_opt a && (is_some o || negb (is_some a))
-  | PCreateStream n t o => wf_strb n && wf_f64 t && wf_opt o && is_some o
+  | PCreateStream n t o => wf_strb n && wf_f64 t && wf_opt o
   | PCreateStreamRes n t o sid => wf_strb n && wf_f64 t && wf_opt o && is_some o && wf_f64 sid
   | PPublish n t o sn st => wf_strb n && wf_f64 t && wf_opt o && is_some o && wf_strb sn && wf_strb st
   | PPlay n t o sn => wf_strb n && wf_f64 t && wf_opt o && is_some o && wf_strb sn
@@ -556,11 +559,22 @@ Fixpoint tx_insert (e : N * bytes) (l : tx) : tx :=
 Definition tx_sorted (t : tx) : tx := fold_right tx_insert [] t.
 Definition sx_of_tx (t : tx) : sx := SL (map (fun e => SL [sN (fst e); SB (snd e)]) (tx_sorted t)).
 
-(* a message of a case: (0 pkt) = the marshalled packet with its Type(); (1 mtype xpayload) raw *)
+(* the payload of a command carried in message type mt: the AMF3 carriers (17, 15) put one
+   format byte 0 before the AMF0 body *)
+Definition carried (mt : N) (body : bytes) : bytes :=
+  if (mt =? mtAMF3Command) || (mt =? mtAMF3Data) then 0 :: body else body.
+
+(* a message of a case: (0 pkt) = the marshalled packet with its Type(); (1 mtype xpayload) raw;
+   (2 mtype pkt) = the command carried in message type mtype *)
 Definition msg_of_sx (s : sx) : option (msg * option pkt) :=
   match s with
   | SL [SZ 0%Z; p] => match pkt_of_sx p with Some k => Some ((mtype_of k, marshal k), Some k) | None => None end
   | SL [SZ 1%Z; SZ mt; SB pl] => Some ((Z.to_N mt, pl), None)
+  | SL [SZ 2%Z; SZ mt; p] =>
+      match pkt_of_sx p with
+      | Some k => Some ((Z.to_N mt, carried (Z.to_N mt) (marshal k)), Some k)
+      | None => None
+      end
   | _ => None
   end.
 
@@ -577,11 +591,6 @@ Fixpoint pkts_of_sx (l : list sx) : option (list pkt) :=
   | s :: r => match pkt_of_sx s, pkts_of_sx r with
               | Some p, Some ps => Some (p :: ps) | _, _ => None end
   end.
-
-(* the payload of a command carried in message type mt: the AMF3 carriers (17, 15) put one
-   format byte 0 before the AMF0 body *)
-Definition carried (mt : N) (body : bytes) : bytes :=
-  if (mt =? mtAMF3Command) || (mt =? mtAMF3Data) then 0 :: body else body.
 
 (* history between two endpoints 0 and 1, each with its own table.
    event (0 dir pkt): endpoint dir writes pkt (WritePacket: registers), the peer reads and decodes it
